@@ -513,6 +513,9 @@ func (e *Env) evalCall(n *SCall) Val {
 		v := arg(0)
 		it := e.x.resolveType(e.strArg(n, 1), e.pkg)
 		return boolVal(e.x.implements(v.Fs[0].S, it))
+	case "chancap":
+		v := arg(0)
+		return Val{T: intT, S: Select(h.get(e.cur, chanKey("cap", v.T), "(Array Int Int)"), v.S)}
 	case "chanclosed":
 		v := arg(0)
 		return boolVal(e.x.chanClosed(e.cur, v))
